@@ -502,6 +502,66 @@ def main(tier, seed):
             gfiles = gen_program(gcells, tbl["type_arg"], consumer_inst=True)
             for flags in (flagsets[:1] if tier == "quick" else flagsets[:2]):
                 build_and_compare(f"genfunc{pi}", gfiles, gcells, flags, "generic-func-result-instantiated-by-consumer")
+    # ---- a struct that EMBEDS an instantiation of a generic type depending on the type parameter, next to an ordinary
+    # field, against identical structs that do not go through the generic origin (anonymous literal, named struct,
+    # pointer embed): conversions, assignments and selections across the package boundary
+    emb_files = {
+        "lib/lib.go": """package lib
+
+type Box[T any] struct{ Contents T }
+
+type W[T any] struct {
+	Box[T]
+	N int
+}
+
+type P[T any] struct {
+	*Box[T]
+	M int
+}
+
+func Make[T any](v T) struct {
+	Box[T]
+	N int
+} {
+	return struct {
+		Box[T]
+		N int
+	}{Box[T]{v}, 7}
+}
+
+var Wrapped = Make("w")
+""",
+        "main.go": """package main
+
+import "example.com/c15prog/lib"
+
+type plain struct {
+	lib.Box[string]
+	N int
+}
+
+func main() {
+	println("wrapped", lib.Wrapped.N, lib.Wrapped.Contents)
+	w := lib.W[string](struct {
+		lib.Box[string]
+		N int
+	}{lib.Box[string]{Contents: "x"}, 3})
+	println("converted", w.N, w.Contents)
+	pl := plain{lib.Box[string]{Contents: "y"}, 4}
+	w = lib.W[string](pl)
+	println("named", w.N, w.Contents)
+	var p lib.P[int]
+	p = struct {
+		*lib.Box[int]
+		M int
+	}{&lib.Box[int]{Contents: 5}, 6}
+	println("assigned", p.M, p.Contents)
+}
+""",
+    }
+    for flags in (flagsets[:1] if tier == "quick" else flagsets):
+        build_and_compare("embgeneric", emb_files, [], flags, "embedded-generic-instantiation")
     chk.extra["b2_cells_run"] = cells_run
     chk.exhaustive = True  # every pair of every exported table was checked against the real hasher
     return chk.finish()
